@@ -167,6 +167,17 @@ def run_shard(tier, seed, shard, n, R):
                 R.nontriv(src, opt)
         R.count("sibling_family_cases")
     R.flags["sibling_reuse_family_all_scope_kind_pairs"] = True
+    for i, (name, module, calls) in enumerate(gs.cross_function_family()):
+        if i % n != shard:
+            continue
+        from ..lang import print_module
+        src = print_module(module)
+        for opt in (False, True):
+            res = diff.check_program(R, obs, name, module, calls, None, ":".join(name.split(":")[:3]) + (":O1" if opt else ":O0"), source=src, optimize=opt)
+            if res["runnable"] and res["bad"] == 0:
+                R.nontriv(src, opt)
+        R.count("cross_function_family_cases")
+    R.flags["cross_function_reuse_family_all_role_pairs"] = True
     nrand = 25 if tier == "quick" else 500
     for j in range(nrand):
         prog = gs.random_skeleton(rng)
